@@ -110,9 +110,12 @@ func (group *Group) StartRtpPub(req base.ApiCtrlStartRtpPubReq) (ret base.ApiCtr
 	}
 
 	pubSession := gb28181.NewPubSession().WithStreamName(req.StreamName).WithOnAvPacket(group.OnAvPacketFromPsPubSession)
+	// the hook runs on the session's read goroutine, which does not hold group.mutex:
+	// it must not read the group field (written here and cleared in delIn)
+	psPubDumpFile := group.psPubDumpFile
 	pubSession.WithHookReadPacket(func(b []byte) {
-		if group.psPubDumpFile != nil {
-			group.psPubDumpFile.WriteWithType(b, base.DumpTypePsRtpData)
+		if psPubDumpFile != nil {
+			psPubDumpFile.WriteWithType(b, base.DumpTypePsRtpData)
 		}
 	})
 
